@@ -3,7 +3,7 @@ CONSTANTS
   G = 4
   DegInit = FALSE
   MaxSpan = 99
-  MaxOps = 5
-  Weights <- W1
+  MaxOps = 4
+  Weights <- W3
   Emit = TRUE
 INVARIANTS Sorted NonEmpty InBounds NoExcluded OfferOk NoLoss EmitDone
